@@ -1030,7 +1030,9 @@ func (e *Evaluator) evalStatementNested(stmt Statement) error {
 				}
 			}
 		case ValueObj:
-			for k, v := range *iterable.Value.Obj {
+			obj := *iterable.Value.Obj
+			for _, k := range sortedKeys(obj) {
+				v := obj[k]
 				if indexLocal != nil {
 					indexLocal.Value = v.Value
 				}
